@@ -23,7 +23,8 @@ ASSUMPTIONS = ["candidates are registered as data (OperatorImpl with ParamPatter
                "g++-12 -O1 build of the working tree with harness-side shims"]
 FLOORS = {"resolutions": {"quick": 4000, "thorough": 100000}, "families_with_competition": {"quick": 300, "thorough": 8000}, "size_hinted_families_with_competition": {"quick": 20, "thorough": 80},
           "ambiguity_errors": {"quick": 20, "thorough": 500}, "no_match_errors": {"quick": 100, "thorough": 3000},
-          "orders_compared": {"quick": 2500, "thorough": 60000}, "mirrored_signature_checks": {"quick": 200, "thorough": 400}}
+          "orders_compared": {"quick": 2500, "thorough": 60000}, "mirrored_signature_checks": {"quick": 200, "thorough": 400},
+          "inheritance_families_with_unequal_distances": {"quick": 200, "thorough": 2500}, "inheritance_ties": {"quick": 40, "thorough": 500}}
 
 POOL = {
     "ci": "TS(int)->TS(int)",
@@ -328,6 +329,75 @@ def run_lines(exe, lines, tag):
     return out
 
 
+def hier_phase(exe, rng, tier, seed):
+    lines, meta = [], []
+    for _ in range(300 if tier == "quick" else 4000):
+        n = rng.choice([4, 6, 8, 10])
+        names = [f"B{i}" for i in range(n)]
+        parents = {}
+        for i, nm in enumerate(names):
+            k = 0 if i == 0 else rng.choice([1, 1, 2, 2, 3])
+            ps = rng.sample(names[:i], min(i, k))
+            if i == n - 1 and i >= 2 and len(ps) < 2:
+                ps = rng.sample(names[:i], 2)          # the argument's bundle usually has several parents
+            rng.shuffle(ps)
+            parents[nm] = ps
+        arg = names[-1] if rng.random() < 0.8 else rng.choice(names)
+        dist, frontier = {arg: 0}, [arg]
+        while frontier:                                 # breadth-first: fewest parent edges
+            nxt = []
+            for x in frontier:
+                for p_ in parents[x]:
+                    if p_ not in dist:
+                        dist[p_] = dist[x] + 1
+                        nxt.append(p_)
+            frontier = nxt
+        reach = [b for b in names if b in dist]
+        cands = rng.sample(reach, min(len(reach), rng.choice([2, 2, 3]))) if len(reach) >= 2 and rng.random() < 0.85 else rng.sample(names, 2)
+        decl = ";".join(f"{nm}:{','.join(parents[nm])}" for nm in names)
+        for order in (cands, list(reversed(cands))):
+            lines.append(f"{decl} | {','.join(order)} | {arg}")
+            meta.append((decl, tuple(order), arg, {c: dist.get(c) for c in cands}))
+    d = os.path.join(SCRATCH, f"C19.{tier}.{seed}.hier")
+    os.makedirs(d, exist_ok=True)
+    ip, op_ = os.path.join(d, "in.txt"), os.path.join(d, "out.txt")
+    with open(ip, "w") as f:
+        f.write("\n".join(lines) + "\n")
+    r = subprocess.run([exe, "hier", ip, op_], capture_output=True, text=True, timeout=1800)
+    if r.returncode != 0:
+        raise Inconclusive(f"hgunit hier failed rc={r.returncode} {r.stderr[-300:]}")
+    V = []
+    C = {"inheritance_resolutions": 0, "inheritance_families_with_unequal_distances": 0, "inheritance_ties": 0, "inheritance_no_match": 0}
+    with open(op_) as f:
+        for (decl, order, arg, dists), line in zip(meta, f):
+            tk = line.split()
+            C["inheritance_resolutions"] += 1
+            got = ("ok", tk[3]) if tk[2] == "ok" else ("err", "ambiguous" if "ambiguous" in line else "nomatch" if "no_matching" in line else "other")
+            matching = {c: dv for c, dv in dists.items() if dv is not None}
+            fam = (decl, order)
+            if not matching:
+                C["inheritance_no_match"] += 1
+                if got != ("err", "nomatch"):
+                    V.append((fam, (arg,), f"no candidate base is an ancestor of {arg}, yet resolution gives {got}"))
+                continue
+            best = min(matching.values())
+            winners = sorted(c for c, dv in matching.items() if dv == best)
+            if len(set(matching.values())) > 1:
+                C["inheritance_families_with_unequal_distances"] += 1
+            if len(winners) == 1:
+                if got != ("ok", winners[0]):
+                    V.append((fam, (arg,), f"TS[{arg}]: candidate bases at parent-edge distances {matching}: the most specific is {winners[0]}, "
+                                           f"resolution gives {got} (hierarchy {decl}; registered {order})"))
+            else:
+                C["inheritance_ties"] += 1
+                if got != ("err", "ambiguous"):
+                    V.append((fam, (arg,), f"TS[{arg}]: candidate bases {winners} are equally distant ({matching}); expected an ambiguity error, "
+                                           f"resolution gives {got}"))
+    os.unlink(ip)
+    os.unlink(op_)
+    return V, C
+
+
 def main(tier, seed, replay):
     t0 = time.time()
     try:
@@ -495,6 +565,13 @@ def main(tier, seed, replay):
                 V.append((fam, a, f"sizes pinned to [{h}]: unique best candidate for {a} is {winners[0]} (ranks {matching}) but the family resolves to {first[:3]}"))
             if len(winners) > 1 and not (first[0] == "err" and first[1] == "ambiguous"):
                 V.append((fam, a, f"sizes pinned to [{h}]: candidates {winners} tie for {a} but the family resolves to {first[:3]}"))
+    # 4) overloads on concrete TS[<named bundle>] parameters over generated INHERITANCE hierarchies (several parents per bundle, chains
+    #     of unequal length joining at shared ancestors, parents listed in either order): the most specific candidate is the one
+    #     whose base is the fewest parent edges away from the argument's bundle (breadth-first distance, computed here).
+    hv, hcount = hier_phase(exe, rng, tier, seed)
+    V += hv
+    counters.update(hcount)
+    counters["resolutions"] += hcount.get("inheritance_resolutions", 0)
     wall = time.time() - t0
     coverage = {"evaluations": counters["resolutions"], "distinct_nontrivial": len(nontrivial), "rule": RULE, "samples": samples or [{"note": "no competition"}],
                 "monitor_counters": counters, "pool": POOL, "universe": UNIVERSE, "families": len(by_fam)}
